@@ -517,7 +517,15 @@ def decl_expected(case) -> bool:
                 ok = all([item_accepts(ts[0], x) for x in v]) and ok
         if vv["contains"] is not None:
             t, mn, mx = vv["contains"]
-            n = sum([1 for x in v if item_accepts(t, x)])
+            items = list(v)
+            if vv["args"] is not None and ok:
+                # documented order: the element type converts the items first (a Decimal is completed to the element
+                # type's decimal_places, rule.md), `contains` then looks at the converted items
+                ts = vv["args"]
+                per = list(zip(ts, items)) if (isinstance(v, tuple) and not vv["ellipsis"]) else [(ts[0], x) for x in items]
+                items = [x.quantize(Decimal(1).scaleb(-dict((k, decode(b)) for k, b in t_["cs"])["decimal_places"]))
+                         if isinstance(x, Decimal) and any(k == "decimal_places" for k, _ in t_["cs"]) else x for t_, x in per]
+            n = sum([1 for x in items if item_accepts(t, x)])
             ok = ok and n >= 1 and (mn is None or n >= mn) and (mx is None or n <= mx)
         if vv["hook"] is not None:
             ok = hook_ok(vv["hook"], v) and ok
@@ -540,7 +548,7 @@ def impl_decl(case):
     out = {"decl": "ok"}
     try:
         out["validators"] = [[f.__name__, encode(list(b) if k == "enum" and isinstance(b, (tuple, set, frozenset)) else b)]
-                             for k, b, f in T.__validators__]
+                             for k, b, f in getattr(T, "__validators__", [])]   # (an unconstrained field type is the plain class)
     except Exception as e:
         out["validators"] = "raised " + type(e).__name__
     out["parse"] = _outcome(lambda: T(v))
